@@ -211,6 +211,9 @@ class Hist(object):
                 if op == 'sanns':
                     if at.local is None: return None     # NS-aware insertion of a DOM Level 1 attribute: outside the domain
                     self.excl_check('C13-setAttributeNodeNS-self-inuse', at.owner is e and not e.readonly)
+                    # known finding: replacing an attribute of the same expanded name but another qualified name in place breaks the sort order of the map
+                    fx = w._find_attr_ns(e, at.ns, at.local)
+                    self.excl_check('C13-setNamedItemNS-breaks-sort-order', bool(fx) and fx[0].name != at.name and at.owner is None and at.doc is e.doc and not e.readonly)
                     return 'sanns\t%s\t%s' % (I(e), I(at)), w.setAttributeNodeNS(e, at)
                 if at.owner is e: defaults_lost(at)
                 return 'ran\t%s\t%s' % (I(e), I(at)), w.removeAttributeNode(e, at)
@@ -279,6 +282,8 @@ class Hist(object):
             if n is None: return None
             deep = c % 2
             if doc_of(n) is not doc: L.add('cross-document')
+            if any(x.t == EL and (len(set(y.name for y in x.attrs)) != len(x.attrs) or len(set((y.ns, y.local) for y in x.attrs if y.local is not None)) != len([y for y in x.attrs if y.local is not None])) for x in (dm.subtree(n) if deep else [n])):
+                return None      # element whose attribute set mixes Level 1 / namespace-aware duplicates: outside the domain
             return 'imp\t%s\t%s\t%d' % (I(doc), I(n), deep), w.importNode(doc, n, bool(deep))
         return self.concretise_ext(op, ab)
 
@@ -308,7 +313,7 @@ class Hist(object):
         if 'C13-document-fragment-partial-insert' not in self.excl: return
         if p.t == DOC and nc.t == FR and not p.readonly and doc_of(nc) is p:
             codes = self.w._insert_codes(p, nc, ref, replacing=replacing)
-            if codes == {dm.HIERARCHY} and all(k.t in dm.ALLOWED[DOC] or (k.t == TX and k.value.strip(' \t\r\n') == '') for k in nc.children) and nc.children:
+            if codes == {dm.HIERARCHY} and all(k.t in dm.ALLOWED[DOC] or (k.t == TX and k.value != '' and k.value.strip(' \t\r\n') == '') for k in nc.children) and nc.children:
                 raise Excluded('C13-document-fragment-partial-insert')
 
     # ---- canned preludes: concrete scripts so that most histories start from trees worth mutating --------
@@ -443,7 +448,9 @@ def compare(steps, resp_steps, init_crc, views=False):
         want_crc = prev_crc if st.res.is_err() else st.crc
         if st.res.unspec is not None:
             if not ok or crc != want_crc or (views and len(f) > 6 and f[6] != st.vcrc):
-                diverged = i
+                # the implementation made another (permitted) choice: the model no longer describes the state, and the
+                # by-construction exclusions of known defects are no longer reliable -> the comparison ends here
+                return None, None, i
             prev_crc = crc; continue
         if not ok:
             return 'step %d (%s): outcome %s, the model expects %s' % (i, st.line.replace('\t', ' '), got, expected_outcome(st)), i, diverged
@@ -478,6 +485,20 @@ def run_case(case, ex, optable, views=False, hist_cls=None):
     try:
         resp = execute(ex, setup, steps, views=views)
     except xv.ExecutorDied as e:
+        # did the history pass a diverged "unspecified" step before it died?  then everything behind that step is outside
+        # the model (and outside the exclusions of known defects): cut the history there and judge the prefix only
+        for u in [i for i, s in enumerate(steps) if s.res.unspec is not None]:
+            try:
+                r0 = execute(ex, setup, steps[:u + 1], views=views)
+            except xv.ExecutorDied:
+                break
+            i0, _, rs0 = parse_response(r0)
+            d0, at0, div0 = compare(steps[:u + 1], rs0, crc0, views=views)
+            if d0 is not None: break
+            if div0 is not None:
+                h.labels.add('unspec-diverged'); h.labels.add('cut-after-divergence')
+                del h.steps[u + 1:]
+                return True, 'ok (history cut at the diverged unspecified step %d)' % u, h
         return False, 'executor died rc=%s (memory-safety failure or abort in the code under test)\n%s\nhistory:\n%s' % (
             e.rc, e.stderr[-3000:], '\n'.join('%d %s' % (i, s.line.replace('\t', ' ')) for i, s in enumerate(steps))), h
     init, idump, rsteps = parse_response(resp)
